@@ -47,6 +47,7 @@ def c6(ctx):
 def c7(ctx):
     entry.funnel(ctx)
     entry.filename_entry(ctx)
+    entry.text_entry_points(ctx)
 
 
 def sweep(ctx):
